@@ -389,7 +389,10 @@ class Ctx:
             per_class.setdefault(k, []).append((case, r))
         whole = None
         for k, lst in per_class.items():
-            for case, r in lst[:max_repro if reproduce else 0]:
+            nrep = max_repro if reproduce else 0
+            if k.startswith("?stall:"):
+                nrep = min(nrep, 1)   # each reproduction of a stall costs the watchdog's full time
+            for case, r in lst[:nrep]:
                 if r.get("history"):
                     # the failure needs the history of the whole stage: reproduce it by running the whole stage again
                     if whole is None:
